@@ -28,6 +28,8 @@
 #include "loopback.h"
 #include "qxv.h"
 
+#include <memory>
+
 #include <QXmlStreamWriter>
 
 namespace {
@@ -461,8 +463,11 @@ struct Exec {
         peer.takeReceived();
         ev["ok"] = true;
         ev["o"] = observe();
-        ctx.emit_(ev);
+        if (!quiet) {
+            ctx.emit_(ev);
+        }
     }
+    bool quiet = false;  // set-up retries leave no trace line
 };
 
 }  // namespace
@@ -479,12 +484,28 @@ QXV_DRIVER(sm)
         auto steps = b["steps"].toArray();
         auto id = QString("s%1").arg(++n);
         TestClient::resetIdCounter();
-        Exec x(ctx, peer, expectBytes);
-        x.raw = ctx.optInt("raw", 0) != 0;
-        x.create();
-        expectBytes = peer.totalReceived;
-        bool ok = x.connectAndNegotiate(true);
-        if (!ok || x.ph != "NegoEnable") {
+        // The initial negotiation is harness set-up, not an observation: on a heavily loaded machine
+        // a connection attempt can exceed the hang detector, so it is retried with a fresh client
+        // before the run is declared broken.
+        std::unique_ptr<Exec> xp;
+        bool ok = false;
+        for (int attempt = 0; attempt < 4 && !ok; ++attempt) {
+            if (xp) {
+                xp->quiet = true;
+                xp->destroy();
+                qxvDrain();
+            }
+            xp.reset(new Exec(ctx, peer, expectBytes));
+            xp->raw = ctx.optInt("raw", 0) != 0;
+            xp->create();
+            expectBytes = peer.totalReceived;
+            ok = xp->connectAndNegotiate(true) && xp->ph == "NegoEnable";
+            if (!ok) {
+                fprintf(stderr, "sm: initial negotiation attempt %d failed (%s, phase %s)\n", attempt + 1, qPrintable(xp->fail), qPrintable(xp->ph));
+            }
+        }
+        Exec &x = *xp;
+        if (!ok) {
             fprintf(stderr, "sm: initial negotiation failed (%s, phase %s)\n", qPrintable(x.fail), qPrintable(x.ph));
             return 2;
         }
